@@ -55,6 +55,15 @@ class QProp(Prop):
         self._index = {id(c): i for i, c in enumerate(cases)}
 
     def spec_verdict(self, case, impl, spec):
+        if case.tag == "refsweep-pair":
+            from . import refsweep as R
+            return R.verdict(impl, case.expect[1])
+        if case.tag == "refsweep-dims":
+            # dimensions by the human reference table: the conversion must be accepted
+            items = impl[2:].split(" | ") if impl.startswith("R ") else [impl]
+            if len(items) == 1 and items[0].startswith("OK "):
+                return None
+            return f"`{case.text}` is a conversion between equal dimensions by the reference table, but was answered {impl[:80]}"
         if case.expect is None:
             return None
         if impl.startswith("PANIC") or impl.startswith("ABORT"):
@@ -163,7 +172,13 @@ class C02(QProp):
             else:
                 e = Q.Cast(G.Paren(G.Bin(rng.choice("+-"), Q.Qty(x, u1), Q.Qty(y, u2))), u1 if rng.chance(1, 2) else u2)
             items.append((e, Q.layout_q(e, rng, "canon" if i % 3 else "random"), f"{'same' if same else 'random'}-kind{kind}"))
-        return q_cases(items)
+        cases = q_cases(items)
+        # commensurability judged by the HUMAN reference table (not by the table extracted from
+        # the source): every reference name at powers 1, -1, 2 against the base-SI spelling
+        from . import refsweep as R
+        for text, name, p, exp in R.sweep(powers=(1, -1, 2)):
+            cases.append(Case("query " + C.hexs(text), "refsweep-dims", text))
+        return cases
 
 
 class C03(QProp):
@@ -330,6 +345,20 @@ class C13(QProp):
             return Q.Qty(Q.small_value(rng), Q.rand_unit(v, rng, 2))
 
         B, P = G.Bin, G.Paren
+        # every pair of distinct units (one unprefixed name per unit): a·b and b·a, and a/b
+        # (two units that collapse onto one map key, or whose reconstruction depends on the
+        # operand order, show up only for particular pairs)
+        one = {}
+        for w in v.plain_words:
+            if w[0] == "" and w[1].isascii() and w[1].isalpha():
+                one.setdefault(w[2], w)
+        reps = list(one.values())
+        step = 1 if tier != "quick" else 1
+        for i in range(0, len(reps)):
+            for j in range(i + 1, len(reps), step):
+                a, b = Q.Qty("3", [(reps[i], 1)]), Q.Qty("7", [(reps[j], 1)])
+                items.append((B("*", a, b), [], "pair-mul"))
+                items.append((B("*", b, a), [], "pair-mul"))
         n = 400 if tier == "quick" else 8000
         for _ in range(n):
             u = Q.rand_unit(v, rng, 2)
@@ -348,7 +377,16 @@ class C13(QProp):
                 items.append((lhs, [], "law-lhs"))
                 if rhs is not None:
                     items.append((rhs, [], "law-rhs"))
-        return q_cases(items)
+        cases = q_cases(items)
+        # the same pair sweep judged by the HUMAN reference table (names, dimensions, scales),
+        # independent of the extracted tables and of the word validation
+        from . import refsweep as R
+        ps = R.pair_sweep()
+        for text, exp in (ps if tier != "quick" else ps[:: 2] + ps[1:: 2][:: 3]):
+            c = Case("query " + C.hexs(text), "refsweep-pair", text)
+            c.expect = ("REFPAIR", exp)
+            cases.append(c)
+        return cases
 
 
 def load_facts(k, rng):
